@@ -105,10 +105,20 @@ func segmentFMP4CanBeConcatenated(
 }
 
 func segmentFMP4ReadHeader(r io.ReadSeeker) (*fmp4.Init, time.Duration, error) {
+	fileSize, err := r.Seek(0, io.SeekEnd)
+	if err != nil {
+		return nil, 0, err
+	}
+
+	_, err = r.Seek(0, io.SeekStart)
+	if err != nil {
+		return nil, 0, err
+	}
+
 	// check and skip ftyp
 
 	buf := make([]byte, 8)
-	_, err := io.ReadFull(r, buf)
+	_, err = io.ReadFull(r, buf)
 	if err != nil {
 		return nil, 0, err
 	}
@@ -136,6 +146,11 @@ func segmentFMP4ReadHeader(r io.ReadSeeker) (*fmp4.Init, time.Duration, error) {
 	}
 
 	moovSize := uint32(buf[0])<<24 | uint32(buf[1])<<16 | uint32(buf[2])<<8 | uint32(buf[3])
+
+	// sizes come from the file, do not allocate more than the file contains
+	if moovSize < 8 || (uint64(ftypSize)+uint64(moovSize)) > uint64(fileSize) {
+		return nil, 0, fmt.Errorf("invalid ftyp or moov size")
+	}
 
 	// skip moov header
 
@@ -346,6 +361,10 @@ outer:
 
 		tfhdSize := uint32(buf[0])<<24 | uint32(buf[1])<<16 | uint32(buf[2])<<8 | uint32(buf[3])
 
+		if tfhdSize < 8 || int64(tfhdSize) > fileSize {
+			return 0, fmt.Errorf("invalid tfhd size")
+		}
+
 		buf2 := make([]byte, tfhdSize-8)
 
 		_, err = io.ReadFull(r, buf2)
@@ -377,6 +396,10 @@ outer:
 
 		tfdtSize := uint32(buf[0])<<24 | uint32(buf[1])<<16 | uint32(buf[2])<<8 | uint32(buf[3])
 
+		if tfdtSize < 8 || int64(tfdtSize) > fileSize {
+			return 0, fmt.Errorf("invalid tfdt size")
+		}
+
 		buf2 = make([]byte, tfdtSize-8)
 
 		_, err = io.ReadFull(r, buf2)
@@ -402,6 +425,10 @@ outer:
 		}
 
 		trunSize := uint32(buf[0])<<24 | uint32(buf[1])<<16 | uint32(buf[2])<<8 | uint32(buf[3])
+
+		if trunSize < 8 || int64(trunSize) > fileSize {
+			return 0, fmt.Errorf("invalid trun size")
+		}
 
 		buf2 = make([]byte, trunSize-8)
 
@@ -448,7 +475,17 @@ func segmentFMP4MuxParts(
 	var segmentDuration time.Duration
 	tracksAtEnd := make(map[uint32]struct{})
 
-	_, err := amp4.ReadBoxStructure(r, func(h *amp4.ReadHandle) (any, error) {
+	fileSize, err := r.Seek(0, io.SeekEnd)
+	if err != nil {
+		return 0, err
+	}
+
+	_, err = r.Seek(0, io.SeekStart)
+	if err != nil {
+		return 0, err
+	}
+
+	_, err = amp4.ReadBoxStructure(r, func(h *amp4.ReadHandle) (any, error) {
 		switch h.BoxInfo.Type.String() {
 		case "moof":
 			moofOffset = h.BoxInfo.Offset
@@ -516,6 +553,11 @@ func segmentFMP4MuxParts(
 					(e.SampleFlags&sampleFlagIsNonSyncSample) != 0,
 					e.SampleSize,
 					func() ([]byte, error) {
+						// the size comes from the file, do not allocate more than the file contains
+						if (sampleOffset + uint64(sampleSize)) > uint64(fileSize) {
+							return nil, fmt.Errorf("invalid sample size")
+						}
+
 						payload := make([]byte, sampleSize)
 						n, err2 := r.ReadAt(payload, int64(sampleOffset))
 						if err2 != nil {
